@@ -271,3 +271,10 @@ Proof. split; vm_compute; reflexivity. Qed.
 (* the example lies in the class of the as-is theorems *)
 Example C19_bin_doc_no_i64 : i64_never_in_key_position C19_bin_doc.
 Proof. intros s H. run_star H. Qed.
+
+(* the name used in the work plan: the reference statement of C19_bin_trunc_ref *)
+Theorem C19_trunc_bin : forall D F k, k <= length D -> parse_ref D = Ok F ->
+  (exists e, parse_ref (firstn k D) = Err e) \/
+  (exists s, runs (init D) s /\ top s /\ pos D s <= k <= pos D s + 1 /\
+             parse_ref (firstn k D) = Ok (s_tape s) /\ exists rest, F = s_tape s ++ rest).
+Proof. exact C19_bin_trunc_ref. Qed.
